@@ -295,6 +295,13 @@ func tables() []table {
 		disj[cCode(i)] = i
 		cross[sCode(i)] = regd[(k+1)%len(regd)]
 	}
+	// every type under two codes on the client (say an old and a new server generation): the code
+	// the server uses is the one registered first, the other one is registered after it
+	multi := map[jsonrpc.ErrorCode]int{}
+	for _, i := range regd {
+		multi[sCode(i)] = i
+		multi[cCode(i)] = i
+	}
 	return []table{
 		{"none", nil, nil},
 		{"same-code-both-sides", srvAll, same},
@@ -302,6 +309,7 @@ func tables() []table {
 		{"server-only", srvAll, nil},
 		{"different-codes", srvAll, disj},
 		{"code-registered-to-another-species-on-client", srvAll, cross},
+		{"two-codes-per-type-on-client", srvAll, multi},
 	}
 }
 
@@ -409,9 +417,25 @@ func (h *Handler) ValErr(sp int, msg string, oc int) (Val, error) {
 	}
 }
 
+// ChanErr: a channel-returning method that fails; with oc == ocErrWithValue it returns a live
+// channel together with the error.
+func (h *Handler) ChanErr(sp int, msg string, oc int) (<-chan int, error) {
+	ch := make(chan int)
+	close(ch)
+	switch oc {
+	case ocNil:
+		return ch, nil
+	case ocErr:
+		return nil, speciesList[sp].make(msg)
+	default:
+		return ch, speciesList[sp].make(msg)
+	}
+}
+
 type clientAPI struct {
-	Err    func(sp int, msg string, oc int) error
-	ValErr func(sp int, msg string, oc int) (Val, error)
+	ChanErr func(sp int, msg string, oc int) (<-chan int, error)
+	Err     func(sp int, msg string, oc int) error
+	ValErr  func(sp int, msg string, oc int) (Val, error)
 }
 
 // ---------------------------------------------------------------- messages
@@ -646,15 +670,61 @@ func TestC11(t *testing.T) {
 			cn.close()
 		}
 	}
+	// channel-returning methods (WebSocket only): an error from the handler reaches the caller as an
+	// error with a nil channel, also when the handler returned a live channel next to it
+	for _, tb := range tables() {
+		if tb.name != "none" && tb.name != "same-code-both-sides" {
+			continue
+		}
+		cn, err := dial("ws", tb)
+		if err != nil {
+			t.Errorf("setup ws/%s: %v", tb.name, err)
+			exhaustive = false
+			continue
+		}
+		for si, sp := range speciesList {
+			_, wire := model(tb, si)
+			for _, msg := range msgs[:2] {
+				for oc := ocNil; oc <= ocErrWithValue; oc++ {
+					id := fmt.Sprintf("species=%s table=%s msg=%q shape=(<-chan,error) outcome=%s transport=ws", sp.name, tb.name, msg, outcomeNames[oc])
+					input := map[string]interface{}{"species": sp.name, "table": tb.name, "msg": msg, "shape": "(<-chan int,error)", "outcome": outcomeNames[oc], "transport": "ws", "wire_code": int(wire)}
+					var ch <-chan int
+					var got error
+					var panicked interface{}
+					func() {
+						defer func() { panicked = recover() }()
+						ch, got = cn.api.ChanErr(si, msg, oc)
+					}()
+					c.Case(id, true, "ws/chan-"+outcomeNames[oc])
+					c.Sample(input)
+					switch {
+					case panicked != nil:
+						c.Violate("ws", input, "%s: client call panicked: %v", id, panicked)
+					case oc == ocNil && (got != nil || ch == nil):
+						c.Violate("ws", input, "%s: handler returned a channel and no error, caller got channel=%v err=%v", id, ch != nil, got)
+					case oc != ocNil && got == nil:
+						c.Violate("ws", input, "%s: handler returned an error but the caller got nil (channel=%v)", id, ch != nil)
+					case oc != ocNil && ch != nil:
+						c.Violate("ws", input, "%s: value return is a non-nil channel, want the zero value on error (err %v)", id, got)
+					case oc != ocNil && got.Error() != sp.make(msg).Error():
+						if je, ok := got.(*jsonrpc.JSONRPCError); ok && je.Message != sp.make(msg).Error() {
+							c.Violate("ws", input, "%s: generic error whose Message %q differs from the handler's", id, trunc(je.Message))
+						}
+					}
+				}
+			}
+		}
+		cn.close()
+	}
 	c.Extra("uncertain_value_form_marshalable_content_lost", probeLost)
 	c.Extra("uncertain_value_form_marshalable_content_kept", probeKept)
 	c.Extra("unspecified_observations", unspecifiedSeen)
 	c.Extra("transports", transports)
-	c.Write(t, exhaustive, fmt.Sprintf("complete product: %d transports x 6 registration tables (none, same code both sides, client only, server only, "+
-		"different codes, code registered to another species on the client) x %d error species (errors.New, plain value, plain pointer, marshalable, "+
+	c.Write(t, exhaustive, fmt.Sprintf("complete product: %d transports x 7 registration tables (none, same code both sides, client only, server only, "+
+		"different codes, code registered to another species on the client, every type under two codes on the client) x %d error species (errors.New, plain value, plain pointer, marshalable, "+
 		"marshalable with failing UnmarshalJSON in pointer-form and in value-form client registration, codec, codec with failing FromJSONRPCError in "+
 		"pointer-form and in value-form client registration, marshalable with failing MarshalJSON, codec with failing ToJSONRPCError, one struct in "+
 		"value form and in pointer form under two codes, a pointer to a type registered in value form only (itself unregistered), plus a value-form marshalable probe) x 8 messages (empty, ascii, escaping-heavy, U+0001, U+2028, 3-byte, 4-byte, 4 KiB) x "+
 		"{shape error: err; shape (T,error): err, err with non-zero value}, and the nil outcome once per species and shape; one server+client per "+
-		"(table, transport); each call compared with a table-lookup reference model", len(transports), len(speciesList)))
+		"(table, transport); each call compared with a table-lookup reference model; plus channel-returning methods over ws (tables none/same x species x 2 messages x {channel, error, channel+error})", len(transports), len(speciesList)))
 }
